@@ -74,7 +74,7 @@ func TasksToMessages(msgs []SigningTask) ([]MessageToSign, error) {
 
 func ReconstructBakedMessage(id int) (MessageToSign, error) {
 	validatorsIDS := strings.Split(wc_rotation.ValidatorsIndexes, "\n")
-	if id >= len(validatorsIDS) {
+	if id < 0 || id >= len(validatorsIDS) {
 		return MessageToSign{}, fmt.Errorf("index validator is out off the validator's list")
 	}
 
